@@ -10,9 +10,9 @@
    every terminating run.
    Theorems without a hypothesis on the program hold for ALL programs, name collisions of every kind
    included; the `_partial` ones need wf_prog (no function body re-declares a name that an earlier
-   declaration of the same or an enclosing block of that body uses; no W objects) - outside of it the
-   current code loses objects (`_refuted`, findings C06-shadowed-object-never-destroyed and
-   C06-redeclared-member-flag-stale).
+   declaration of the same or an enclosing block of that body uses; W objects are inside the class since
+   the repair of finding C06-redeclared-member-flag-stale: a registration resets destructor_called) -
+   outside of it the current code loses objects (`_refuted`, finding C06-shadowed-object-never-destroyed).
    The machine of the code before the three fixes and its witnesses are kept in Pinned.v (historical). *)
 From Coq Require Import List Arith Bool.
 Import ListNotations.
@@ -128,16 +128,24 @@ Proof.
 Qed.
 Print Assumptions shadowed_object_never_destroyed_refuted.
 
-(* ... and the R member of a W object declared again under the same name in the same activation (second
-   loop iteration) is never destroyed *)
-Theorem redeclared_member_never_destroyed_refuted :
-  exists p st t, mrun 20 p 0 = Some (true, st) /\ srun 20 p 0 = Some (true, t) /\
-                 count (ev_ctor 51) (tr st) = 2 /\ count (ev_dtor 51) (tr st) = 1 /\ count (ev_dtor 51) t = 2.
+(* repaired (was redeclared_member_never_destroyed_refuted, finding C06-redeclared-member-flag-stale): a W
+   object declared again under the same name in the same activation - next loop iteration, sibling block -
+   is an ordinary member of the proved class: both programs are in wf_prog, the machine's transcript is
+   the Spec's, the R member of EVERY W object is destroyed (right after its parent) *)
+Theorem redeclared_member_destroyed :
+  wf_prog wmember = true /\ wf_prog wmember_sib = true /\
+  (exists st, mrun 20 wmember 0 = Some (true, st) /\ srun 20 wmember 0 = Some (true, tr st) /\
+              count (ev_ctor 51) (tr st) = 2 /\ count (ev_dtor 51) (tr st) = 2) /\
+  (exists st, mrun 20 wmember_sib 0 = Some (true, st) /\ srun 20 wmember_sib 0 = Some (true, tr st) /\
+              count (ev_dtor 51) (tr st) = 1 /\ count (ev_dtor 52) (tr st) = 1).
 Proof.
-  exists wmember. destruct wmember_run as [A B]. do 2 eexists. split; [exact A|]. split; [exact B|].
-  repeat split; reflexivity.
+  destruct wmember_wf as (W1 & W2 & _). destruct wmember_run as [A B].
+  destruct wmember_sib_run as (st & C & D & E).
+  split; [exact W1|]. split; [exact W2|]. split.
+  - eexists. split; [exact A|]. split; [exact B|]. split; reflexivity.
+  - exists st. split; [exact C|]. split; [exact D|]. rewrite E. split; reflexivity.
 Qed.
-Print Assumptions redeclared_member_never_destroyed_refuted.
+Print Assumptions redeclared_member_destroyed.
 
 (* non-vacuity: a program with every construct and all three formerly defective shapes (a scope with
    objects and defers, return after an object, return from inside a loop) is wf and runs to completion *)
